@@ -140,6 +140,42 @@ def valid_case(r, big=False):
     return ",".join(ops)
 
 
+def idle_case(r):
+    """Idle / under-used phases: every connection stays active (or there is none) while consumption is
+    far below the limit for many ticks, then demand arrives. The token bucket must not have grown."""
+    ops = []
+    rate = r.choice([1000, 10240, 50000, 131072, 1 << 20])
+    nsl = r.choice([0, 0, 1, 2])
+    lists = 1 + nsl
+    for i in range(nsl):
+        ops.append("S")
+        ops.append("R %d %d" % (i + 1, r.choice([0, rate // 2 + 1, rate, 4 * rate])))
+    ops.append("R 0 %d" % rate)
+    late = r.random() < 0.5
+    nodes = [(l, k) for l in range(lists) for k in range(r.choice([1, 1, 2, 3]))]
+    if not late:
+        ops += ["T 1000000", "T 1000000"]
+        for l, k in nodes:
+            ops.append("I %d %d" % (l, k))
+    for _ in range(r.randrange(5, 45)):
+        dt = r.choice([1000000, 1000000, 2000000, 10000000, 250000])
+        if dt * rate // 10**6 > QMAX:
+            dt = 1000000
+        ops.append("T %d" % dt)
+        if not late and r.random() < 0.3:
+            l, k = r.choice(nodes)
+            ops.append("X %d %d %d" % (l, k, r.choice([1, 10, 100])))
+    if late:
+        for l, k in nodes:
+            ops.append("I %d %d" % (l, k))
+    for _ in range(r.randrange(3, 12)):
+        l, k = r.choice(nodes)
+        ops.append("X %d %d %d" % (l, k, r.choice([16384, 131072, 131072, 1 << 20])))
+        if r.random() < 0.2:
+            ops.append("T 1000000")
+    return ",".join(ops)
+
+
 def raw_case(r):
     ops = []
     lists = 1
@@ -192,6 +228,10 @@ HAND = [
     # tick arithmetic wrap
     "R 0 4294967294,T 4295000000,T 65536000000,T 18446744073709",
     "R 0 1,I 0 0,X 0 0 1,T 90000,T 90000,T 90000,T 1000000,T 60000000",
+    # 10 KiB/s, ten minutes with the only connection active but idle, then demand: burst must stay fixed
+    "R 0 10240,T 1000000,T 1000000,I 0 0," + ",".join(["T 10000000"] * 60) + ",X 0 0 1048576,X 0 0 1048576,X 0 0 1048576,T 1000000,X 0 0 1048576",
+    # same with no connection at all during the idle phase
+    "R 0 10240," + ",".join(["T 10000000"] * 30) + ",I 0 0,X 0 0 1048576,X 0 0 1048576",
 ]
 # the Rate::insert overflow reached through valid operations (see coq/C12 rate_added_overflow_reachable)
 BUG_RATE_ADDED = "S,I 1 0,X 1 0 268435456,X 1 0 1,R 0 1000,T 1000000"
@@ -211,7 +251,7 @@ def exhaustive_small():
 def gen(seed, tier):
     r = random.Random(seed)
     cases = []
-    stats = {"corpus": 0, "hand": 0, "valid": 0, "raw": 0, "exhaustive": 0}
+    stats = {"corpus": 0, "hand": 0, "valid": 0, "idle": 0, "raw": 0, "exhaustive": 0}
     cdir = os.path.join(os.path.dirname(os.path.dirname(os.path.abspath(__file__))), "corpus", "C12")
     if os.path.isdir(cdir):
         for f in sorted(os.listdir(cdir)):
@@ -227,6 +267,10 @@ def gen(seed, tier):
     for i in range(nv):
         cases.append(valid_case(r, big=(i % 10 == 0)))
     stats["valid"] = nv
+    ni = 150 if tier == "quick" else 1200
+    for _ in range(ni):
+        cases.append(idle_case(r))
+    stats["idle"] = ni
     for _ in range(nr):
         cases.append(raw_case(r))
     stats["raw"] = nr
